@@ -152,6 +152,10 @@ func ReadFromWebVTT(i io.Reader) (o *Subtitles, err error) {
 			return
 		}
 
+		// A cue's text and a comment last until the next empty line: in there, a line that looks like
+		// the start of a region, style or timestamp map block is content
+		var inBlock = blockName == webvttBlockNameText || blockName == webvttBlockNameComment
+
 		switch {
 		// Comment
 		case blockName != webvttBlockNameText && (line == "NOTE" || strings.HasPrefix(line, "NOTE ")):
@@ -174,7 +178,7 @@ func ReadFromWebVTT(i io.Reader) (o *Subtitles, err error) {
 			sa.WebVTTTags = []WebVTTTag{}
 
 		// Region
-		case blockName != webvttBlockNameText && strings.HasPrefix(line, "Region: "):
+		case !inBlock && strings.HasPrefix(line, "Region: "):
 			// Add region styles
 			var r = &Region{InlineStyle: &StyleAttributes{}}
 			for _, part := range strings.Split(strings.TrimPrefix(line, "Region: "), " ") {
@@ -209,7 +213,7 @@ func ReadFromWebVTT(i io.Reader) (o *Subtitles, err error) {
 			// Add region
 			o.Regions[r.ID] = r
 		// Style
-		case blockName != webvttBlockNameText && strings.HasPrefix(line, "STYLE"):
+		case !inBlock && strings.HasPrefix(line, "STYLE"):
 			blockName = webvttBlockNameStyle
 
 			if _, ok := o.Styles[webvttDefaultStyleID]; !ok {
@@ -300,7 +304,7 @@ func ReadFromWebVTT(i io.Reader) (o *Subtitles, err error) {
 			// Append item
 			o.Items = append(o.Items, item)
 
-		case blockName != webvttBlockNameText && strings.HasPrefix(line, webvttTimestampMapHeader):
+		case !inBlock && strings.HasPrefix(line, webvttTimestampMapHeader):
 			if len(item.Lines) > 0 {
 				err = errors.New("astisub: found timestamp map after processing subtitle items")
 				return
